@@ -522,8 +522,13 @@ func rulePool(c *engine.Context) *report.Rule {
 								if upos == "-" {
 									upos = p.RelPos(rel.Pos())
 								}
-								r.Violation(construct+": used after release", upos,
+								fnd := r.Violation(construct+": used after release", upos,
 									"%s uses the pooled object (or a slice loaded from it) after it was handed back to the pool at %s: another evaluation may overwrite it meanwhile", x.String(), p.RelPos(rel.Pos()))
+								if hasMapRange(acq.Call.StaticCallee()) {
+									engine.Restrict(fnd, "C05", "C06", "C07") // sorted-key buffer
+								} else {
+									engine.Restrict(fnd, "C05", "C06", "C14") // result sink
+								}
 								goto nextRelease
 							}
 						}
